@@ -462,7 +462,7 @@ def run_check(pid, tier, seed, replay=None):
                 "Coq 8.16.1 kernel incl. vm_compute (no native_compute, no extraction)",
                 "axioms reported by Print Assumptions for the theorems of Properties/%s.v: %s" % (pid, ", ".join(axioms) if axioms else ("none (closed under the global context)" if axioms == [] else "unavailable")),
                 "tools/extract.py (translator /repo -> Gen/Src.v), tools/props/%s.py + tools/pyval.py + tools/corr.py (correspondence harness)" % pid,
-                "tools/extract_leaf.py (translator of function bodies, /repo -> Gen/Leaf_*.v; its output is proved equal to the model in Tie/Leaf_*.v, listed among the obligations)",
+                "tools/extract_leaf.py and tools/extract_meta.py (translators of function bodies and of the metadata closures, /repo -> Gen/Leaf_*.v; its output is proved equal to the model in Tie/Leaf_*.v, listed among the obligations)",
                 "hand-written model coq/Model/*.v, tied to /repo by those equalities and by the correspondence below",
             ],
             theorems=names,
